@@ -124,7 +124,14 @@ class Exec(ExprMixin, StmtMixin, CallMixin):
             if n == 'forall': return VBool(z3.ForAll([j], z3.Implies(rng, body)))
             return VBool(z3.Exists([j], z3.And(rng, body)))
         if n == 'implies':
-            return VBool(z3.Implies(self.truthy(self.ev(a[0], p)), self.truthy(self.ev(a[1], p))))
+            c = self.truthy(self.ev(a[0], p))
+            try: d = self.truthy(self.ev(a[1], p))
+            except Undecided as ex:
+                # the consequent mentions an object field that does not exist on this path (created only on other paths):
+                # the claim cannot hold here, so the implication reduces to "the antecedent is false on this path"
+                if 'has no field' not in str(ex): raise
+                d = z3.BoolVal(False)
+            return VBool(z3.Implies(c, d))
         if n == 'iff':
             return VBool(self.truthy(self.ev(a[0], p)) == self.truthy(self.ev(a[1], p)))
         if n == 'ite':
